@@ -54,6 +54,9 @@ struct State {
     pin_reasons: BTreeMap<usize, String>,
     /// Blocks allocated during the current run outside harness scope.
     epoch_blocks: Vec<usize>,
+    /// Addresses somebody still holds a reference to: freeing the block that
+    /// contains one is reported with the given class.
+    watches: Vec<(usize, &'static str, String)>,
 }
 
 struct Spin(AtomicBool);
@@ -140,6 +143,7 @@ fn with_state<T>(f: impl FnOnce(&mut State) -> T) -> T {
             violations: Vec::new(),
             pin_reasons: BTreeMap::new(),
             epoch_blocks: Vec::new(),
+            watches: Vec::new(),
         })
     };
     let r = f(state);
@@ -219,6 +223,18 @@ fn record_alloc(addr: usize, layout: Layout) {
 fn record_dealloc(addr: usize, layout: Layout) -> bool {
     with_state(|s| {
         let in_run = s.in_run;
+        if !s.watches.is_empty() {
+            let end = addr + layout.size();
+            let mut i = 0;
+            while i < s.watches.len() {
+                if s.watches[i].0 >= addr && s.watches[i].0 < end {
+                    let (_, class, detail) = s.watches.swap_remove(i);
+                    s.violations.push(AllocViolation { class, detail });
+                } else {
+                    i += 1;
+                }
+            }
+        }
         match s.blocks.get_mut(&addr) {
             Some(block) if block.state == BlockState::Live => {
                 if block.pins > 0 {
@@ -266,6 +282,7 @@ pub fn begin_run() {
         s.epoch += 1;
         s.violations.clear();
         s.epoch_blocks.clear();
+        s.watches.clear();
     });
 }
 
@@ -289,6 +306,16 @@ pub fn end_run() {
     for (addr, layout) in &quarantine {
         unsafe { System.dealloc(*addr as *mut u8, *layout) };
     }
+}
+
+/// Report `class` if the block containing `addr` is freed.
+pub fn watch(addr: usize, class: &'static str, detail: String) {
+    with_state(|s| s.watches.push((addr, class, detail)));
+}
+
+/// Stop watching everything.
+pub fn unwatch_all() {
+    with_state(|s| s.watches.clear());
 }
 
 pub fn take_violations() -> Vec<AllocViolation> {
